@@ -580,6 +580,9 @@ class Lowerer:
             ref = self.name(fname)
             ref.js_function_ref = fd
             return ref
+        if t == 'YieldExpression':
+            v = self.expr(n['argument']) if n.get('argument') is not None else None
+            return ast.YieldFrom(value=v) if n.get('delegate') else ast.Yield(value=v)
         if t == 'SequenceExpression':
             raise JSParseError('sequence expression inside expression not supported')
         if t == 'UpdateExpression':
